@@ -343,8 +343,13 @@ def showStep : Step → String
   | .changeUnit u => s!"change_unit {u.toString}"
   | .reduceToFirstAndPairEnds => "reduce_to_first_and_pair_ends"
 
-def showPlan : Except PlanErr (List Step) → String
-  | .error .filterNeedsStamps => "E_FILTER"
+/-- the steps carried out before a refused plan stops: `downsample_or_filter` down-samples both
+trajectories before it meets the motion filter that needs timestamps -/
+def refusalPrefix (o : CommonOpts) : List Step := downsamplePart o
+
+def showPlan (o : CommonOpts) : Except PlanErr (List Step) → String
+  | .error .filterNeedsStamps =>
+      " | ".intercalate ((refusalPrefix o).map showStep ++ ["E_FILTER"])
   | .ok l => " | ".intercalate (l.map showStep)
 
 /-- the 14 common option tokens:
